@@ -9,9 +9,10 @@ extern "C" {
 void* malloc(size_t);
 void* realloc(void*, size_t);
 void free(void*);
-void* memmove(void* dst, const void* src, size_t n);
-void* memcpy(void* dst, const void* src, size_t n);
+/* memmove is replaced by its ISO C contract (contract.c: verif_memmove), see "trusted" */
+void* verif_memmove(void* dst, const void* src, size_t n);
 }
+#define memmove(d, s, n) verif_memmove((d), (s), (n))
 
 template <class PT> inline void spx_alloc(PT& p, int n = 1)
 {
@@ -34,7 +35,7 @@ template <class PT> inline void spx_free(PT& p)
 }
 
 typedef int T;
-extern "C" { extern T* gp_data; extern int g_i, g_n; }
+extern "C" { extern T* gp_data; extern T** gpp_data; extern int g_i, g_n; extern T g_t; }
 
 struct DataArrayHost
 {
@@ -96,7 +97,7 @@ struct H : DataArrayHost
 extern "C" T* w_op(T* data, int* thesize, int* themax, double memFactor, int op, int a, int b, T t)
 {
 #ifdef INST_insertVal
-   H s; MK(s); s.i = a; s.n = b; s.t_ = t;
+   H s; MK(s); s.i = a; s.n = b; s.t_ = t; g_t = t; gpp_data = &s.data;
    s.body();
 #else
    DataArrayHost s; MK(s);
